@@ -760,8 +760,8 @@ func hdrAlphaMerge(c *suiteCtx) {
 		c.casen(fmt.Sprintf("alpha-merge|%d", i), "")
 		c.count("alpha:merge")
 		for _, side := range []struct {
-			name     string
-			in, out  []options.Header
+			name    string
+			in, out []options.Header
 		}{{"injectRequestHeaders", a.InjectRequestHeaders, o.InjectRequestHeaders}, {"injectResponseHeaders", a.InjectResponseHeaders, o.InjectResponseHeaders}} {
 			same := len(side.in) == len(side.out)
 			for k := 0; same && k < len(side.in); k++ {
@@ -783,8 +783,8 @@ func hdrAlphaMerge(c *suiteCtx) {
 }
 
 // hdrAlphaFile: the same through the real YAML loader (`options.LoadYAML`, the function behind --alpha-config).
-//   * a file written the way --convert-config-to-alpha writes it loads to exactly the header lists it spells out;
-//   * a file that spells a header list out TWICE (a merge left-over: the key appears two times) is refused — if the
+//   - a file written the way --convert-config-to-alpha writes it loads to exactly the header lists it spells out;
+//   - a file that spells a header list out TWICE (a merge left-over: the key appears two times) is refused — if the
 //     loader ever accepts it, every header name written anywhere in the file must be in force (none silently dropped:
 //     a dropped name is neither stripped nor derived from the session).
 func hdrAlphaFile(c *suiteCtx) {
